@@ -397,7 +397,9 @@ func (t *Topic) exit(deleted bool) error {
 	}
 
 	// close all the channels
-	t.RLock()
+	// (the write lock also waits for a PutMessage(s) that passed the exitFlag
+	// check under the read lock, so that what it puts is flushed below)
+	t.Lock()
 	for _, channel := range t.channelMap {
 		err := channel.Close()
 		if err != nil {
@@ -405,7 +407,7 @@ func (t *Topic) exit(deleted bool) error {
 			t.nsqd.logf(LOG_ERROR, "channel(%s) close - %s", channel.name, err)
 		}
 	}
-	t.RUnlock()
+	t.Unlock()
 
 	// write anything leftover to disk
 	t.flush()
